@@ -163,6 +163,7 @@ def dispatch(eng, func, args, kwargs):
     return out
 
 
+COMPARISONS = {"lt", "le", "gt", "ge", "eq", "ne", "lt_", "le_", "gt_", "ge_", "eq_", "ne_"}
 METADATA_INPLACE = {"squeeze_", "unsqueeze_", "transpose_", "t_", "as_strided_", "detach_", "swapaxes_", "swapdims_",
                     "requires_grad_", "rename_", "_coalesced_"}
 
@@ -218,6 +219,12 @@ def check(eng, func, t):
                 eng.diverged = True
                 return
     else:
+        if t.dtype == torch.bool and opname(func) in COMPARISONS and any(bool(g) != bool(r) for g, r in zip(got, real)):
+            # a float comparison at (or within rounding of) a tie: R-semantics decides; the shadow follows it
+            with _disable_current_modes():
+                t.detach().copy_(torch.tensor([bool(g) for g in got]).reshape(tuple(t.shape)))
+            eng.tie_flips += 1
+            return
         for i, (g, r) in enumerate(zip(got, real)):
             if (bool(g) != bool(r)) if t.dtype == torch.bool else (int(g) != int(r)):
                 if eng.strict_crosscheck:
